@@ -420,8 +420,24 @@ def cvc5_check(smt2, timeout_ms):
 
 
 def _solve(pc, goal, timeout_ms, axioms):
+    """portfolio inside z3: default arithmetic with a short budget first, then the simplex-based
+    arithmetic solver (smt.arith.solver=2), which decides the div/mod-heavy step lemmas much faster"""
+    if timeout_ms > 4000:
+        s, r = _solve1(pc, goal, 3000, axioms, None)
+        if r != z3.unknown:
+            return s, r
+        s2, r2 = _solve1(pc, goal, timeout_ms, axioms, 2)
+        if r2 != z3.unknown:
+            return s2, r2
+        return s, r
+    return _solve1(pc, goal, timeout_ms, axioms, None)
+
+
+def _solve1(pc, goal, timeout_ms, axioms, arith):
     s = z3.Solver()
     s.set('timeout', timeout_ms)
+    if arith is not None:
+        s.set('smt.arith.solver', arith)
     for ax in axioms:
         s.add(ax)
     for p in pc:
